@@ -31,6 +31,9 @@ def main():
              "(h = 1e-6, float64, rtol 1e-5) of the get_run_func field at random states in the SAME ordering (maps compared); history "
              "matrices by perturbing a hand-made hist vector; distinct = (model, sparse)",
         sample_of=lambda c: {k: v for k, v in c.items() if k != "features"})
+    # auto-07p DFDU / DFDP blocks: the same identity with respect to state and parameters (text-level, see checks/c18_text.py)
+    from checks import c18_text
+    c18_text.run(chk, site="C12/auto-jacobian", sizes=(3, 12))
     rc = chk.finish(
         explanation="Bounded: the matrix returned by the real Jacobian function against finite differences of the real vector field.",
         assumptions=["central differences with h = 1e-6 in float64 (truncation error 1e-10 on these models)",
